@@ -316,7 +316,8 @@ impl Cx {
                 continue;
             }
             match find_linearization(&s.init, &s.progs, &threads, &fin) {
-                None => {
+                Err(()) => self.rep.bump("small_linearization_search_budget_exhausted"),
+                Ok(None) => {
                     self.d_fail += 1;
                     if self.d_fail <= 6 {
                         let mut h = hist;
@@ -324,7 +325,7 @@ impl Cx {
                         self.rep.violation("D", "C19:atomicity:not-linearizable", h);
                     }
                 }
-                Some(order) => {
+                Ok(Some(order)) => {
                     // hand the witness order to the Lean model: seqAll / resOf must reproduce it
                     let mut pos = vec![0usize; s.progs.len()];
                     let mut items = vec![];
